@@ -71,15 +71,33 @@ let name_ok (n : int list) may_be_empty =
   else not (List.mem 47 n || List.mem 0 n) && n <> [46] && n <> [46; 46]
 let content_ok (c : int list) = List.for_all (fun x -> not (List.mem x [0; 32; 9; 35; 92; 13])) c
 let rec take_n k l = if k = 0 then ([], l) else match l with x :: r -> let (a, b) = take_n (k - 1) r in (x :: a, b) | [] -> raise Bad
-let rec parse_dns (b : int list) = match b with
+(* resolver table with error markers (count 0xfe temp, 0xfd perm, 0xfc out of memory) *)
+let rec parse_dnsx (b : int list) = match b with
   | [] -> []
   | l :: r ->
       let (name, r) = take_n l r in
       if List.mem 0 name then raise Bad;
       (match r with
-       | c :: r -> let (ad, r) = take_n (16 * c) r in
-                   (List.map n_of_int name, List.map (List.map n_of_int) (chunks 16 ad)) :: parse_dns r
+       | c :: r ->
+           let n = List.map n_of_int name in
+           if c = 0xfe then (n, DTemp) :: parse_dnsx r
+           else if c = 0xfd then (n, DPerm) :: parse_dnsx r
+           else if c = 0xfc then (n, DLocal) :: parse_dnsx r
+           else let (ad, r) = take_n (16 * c) r in
+                (n, DAddrs (List.map (List.map n_of_int) (chunks 16 ad))) :: parse_dnsx r
        | [] -> raise Bad)
+let parse_dns b = plain_table (parse_dnsx b)
+let parse_mxrec (s : string) =
+  match ints_of_hex s with
+  | flag :: r when flag <= 4 ->
+      let rec go = function
+        | [] -> []
+        | hi :: lo :: l :: r -> let (name, r) = take_n l r in
+                                if List.mem 0 name then raise Bad;
+                                (n_of_int (hi * 256 + lo), List.map n_of_int name) :: go r
+        | _ -> raise Bad in
+      (n_of_int flag, go r)
+  | _ -> raise Bad
 let parse_file (s : string) =
   match ints_of_hex s with
   | l :: r -> let (name, content) = take_n l r in
@@ -104,6 +122,11 @@ let show_route = function
   | Route (None, p) -> Printf.sprintf "ROUTE %d NONE" (int_of_n p)
   | Route (Some al, p) -> Printf.sprintf "ROUTE %d %s" (int_of_n p) (hex_of_bytes (List.concat al))
 
+let die_word w = match int_of_n w with 0 -> "CONF" | 1 -> "D5.1.10" | 2 -> "Z4.4.3" | _ -> "UNMODELLED"
+let show_answer = function
+  | MxList l -> show_list "OK" l
+  | MxNoHost -> "RC 1" | MxNull -> "RC 2" | MxTemp -> "RC -2" | MxPerm -> "RC -3" | MxLocal -> "RC -1"
+
 let crashy f = function
   | Ok x -> f x
   | Crash _ -> "CRASH"
@@ -125,6 +148,28 @@ let model fs =
   | "04" :: remhost :: dnsf :: flagsf :: files ->
       let (cfg, rh) = parse_route_case remhost dnsf flagsf files in
       crashy show_route (smtproute cfg rh)
+  | ["06"; name; dnsf; mxf] ->
+      let nm = ints_of_hex name in
+      if not (name_ok nm true) then raise Bad;
+      let tab = parse_dnsx (ints_of_hex dnsf) in
+      let (flag, recs) = parse_mxrec mxf in
+      show_answer (ask_dnsmx tab flag recs (List.map n_of_int nm))
+  | "07" :: remhost :: dnsf :: mxf :: flagsf :: par :: orc :: ifs :: files ->
+      let (nc, cs, _) = params par in
+      let (flag, recs) = parse_mxrec mxf in
+      let (fail, il) = ifaces_of_hex ifs in
+      if (match ints_of_hex remhost with 91 :: _ -> true | _ -> false) then raise Bad;
+      let (cfg, rh) = parse_route_case remhost dnsf flagsf files in
+      let tab = parse_dnsx (ints_of_hex dnsf) in
+      crashy (function
+          | MDie w -> "DIE " ^ die_word w
+          | MRun (port, AllMe) -> Printf.sprintf "G%d ALLME" (int_of_n port)
+          | MRun (port, Tried (l1, l2, s, outs)) ->
+              let z = List.map zero_ident in
+              let s' = { s with st_list = s.st_list } in
+              let outs' = List.map (fun (a, r) -> (a, match r with TcConnected (_, i) -> TcConnected (N0, i) | x -> x)) outs in
+              Printf.sprintf "G%d " (int_of_n port) ^ show_list "P" (z l1) ^ " " ^ show_list "S" (z l2) ^ " " ^ show_try (int_of_n port) s' outs')
+        (qremote_main cfg tab flag recs rh fail il (nat_of_int cs) (bytes_of_hex orc) (nat_of_int nc))
   | "05" :: par :: orc :: ifs :: es ->
       let (nc, cs, port) = params par in
       let (fail, il) = ifaces_of_hex ifs in
@@ -223,6 +268,40 @@ let spec fs obs =
        | ["ROUTE"; p; "NONE"] -> b2s (spec_ok_C20_route cfg rh (Route (None, n_of_int (int_of_string p))))
        | ["ROUTE"; p; a] -> b2s (spec_ok_C20_route cfg rh (Route (Some (List.map (List.map n_of_int) (chunks 16 (ints_of_hex a))), n_of_int (int_of_string p))))
        | _ -> "bad")
+  | ["06"; name; dnsf; mxf] ->
+      let nm = ints_of_hex name in
+      if not (name_ok nm true) then raise Bad;
+      let tab = parse_dnsx (ints_of_hex dnsf) in
+      let (flag, recs) = parse_mxrec mxf in
+      obs_bad (fun () ->
+        let o = match obs with
+          | "OK" :: es -> MxList (List.map entry_of_hex es)
+          | ["RC"; "1"] -> MxNoHost | ["RC"; "2"] -> MxNull | ["RC"; "-2"] -> MxTemp | ["RC"; "-3"] -> MxPerm | ["RC"; "-1"] -> MxLocal
+          | _ -> raise Bad in
+        b2s (spec_ok_C20_dnsmx tab flag recs (List.map n_of_int nm) o))
+  | "07" :: remhost :: dnsf :: mxf :: flagsf :: par :: orc :: ifs :: files ->
+      let (nc, _, _) = params par in
+      let (flag, recs) = parse_mxrec mxf in
+      let (fail, il) = ifaces_of_hex ifs in
+      if (match ints_of_hex remhost with 91 :: _ -> true | _ -> false) then raise Bad;
+      let (cfg, rh) = parse_route_case remhost dnsf flagsf files in
+      let tab = parse_dnsx (ints_of_hex dnsf) in
+      let o = bytes_of_hex orc in
+      if not (pre_C20_main cfg tab recs rh) then "pre" else
+      obs_bad (fun () ->
+        let gport t = if String.length t > 1 && t.[0] = 'G' then int_of_string (sub t 1) else raise Bad in
+        let ob = match obs with
+          | ["DIE"; "CONF"] -> ODie (n_of_int 0) | ["DIE"; "D5.1.10"] -> ODie (n_of_int 1) | ["DIE"; "Z4.4.3"] -> ODie (n_of_int 2)
+          | [g; "ALLME"] -> OAllMe (n_of_int (gport g))
+          | g :: "P" :: rest ->
+              let port = gport g in
+              let (l1, rest) = split_at "S" [] rest in
+              let (l2, toks) = split_at "T" [] rest in
+              let (outs, ok) = parse_try port toks in
+              if not ok || List.length outs <> nc then raise Bad;
+              ORun (n_of_int port, List.map entry_of_hex l1, List.map entry_of_hex l2, outs)
+          | _ -> raise Bad in
+        b2s (spec_ok_C20_main cfg tab flag recs rh fail il o ob))
   | _ -> "pre"
   with Bad | Failure _ | Not_found | Invalid_argument _ -> "pre"
 
